@@ -257,6 +257,9 @@ func report(prop, tier string, seed int64, hs []harnessRef, results []*interp.Ha
 		if r.PathCapHit {
 			problems = append(problems, "INCONCLUSIVE "+r.Name+": path cap reached")
 		}
+		if r.TimedOut {
+			problems = append(problems, "INCONCLUSIVE "+r.Name+": time budget of the harness exceeded (exploration stopped; violations found so far are reported)")
+		}
 	}
 
 	writeEvidence(prop, tier, seed, results, validated, nviol, wall, loadWall, problems)
